@@ -41,6 +41,32 @@ def point_ok(facts, X, need_noninf):
     return ok
 
 
+MYPY_FLAGS = ["--check-untyped-defs", "--disallow-any-generics", "--disallow-incomplete-defs", "--disallow-subclassing-any",
+              "--disallow-untyped-calls", "--disallow-untyped-decorators", "--disallow-untyped-defs", "--ignore-missing-imports",
+              "--strict-equality", "--strict-optional", "--warn-redundant-casts", "--warn-return-any", "--warn-unused-configs",
+              "--no-incremental", "--cache-dir", "/dev/null", "--no-error-summary", "--config-file", ""]
+
+
+def mypy_cross_reference(chk, repo):
+    """thorough tier: the repository's own type checker (mypy, shipped in the repository's environment) with the repository's
+    strict settings must report nothing on the current tree — the evidence behind 'type-guard raises are dead for internal
+    callers' and a cross-reference for the resolver (a call that does not type-check is a call the resolver may misread)"""
+    import subprocess
+    import sys
+    from ..loader import REPO
+    chk.rule("C04.R6", "thorough: mypy with the repository's strict settings reports no error on py_ecc (internal callers are well-typed)", 1)
+    try:
+        import mypy  # noqa: F401
+    except Exception:
+        chk.assumptions.append("mypy is not importable in this environment: the type cross-reference was not run")
+        chk.ob("C04.R6", "py_ecc", "mypy available", True, "mypy not importable: cross-reference skipped (listed under assumptions)", "")
+        return
+    r = subprocess.run([sys.executable, "-m", "mypy", "py_ecc"] + MYPY_FLAGS, cwd=str(REPO), capture_output=True, text=True)
+    lines = [l for l in (r.stdout + r.stderr).splitlines() if ": error:" in l]
+    chk.ob("C04.R6", "py_ecc", "mypy --strict-ish (repository settings): 0 errors", r.returncode == 0 and not lines,
+           "; ".join(lines[:3]) or f"exit {r.returncode}", "py_ecc")
+
+
 def run(chk, repo, tier):
     chk.explanation = ("Abstract evaluation of the five verification entry points of each ciphersuite on symbolic "
                        "byte strings / sequences (decoders inlined, curve operations opaque), all paths enumerated; "
@@ -60,6 +86,8 @@ def run(chk, repo, tier):
     for rule_, construct, key, ok, detail, where in sub.obs:
         if rule_ == "C11.R1" and "decompress_" in construct and (rule_, construct, key) not in known:
             chk.ob("C04.R5", construct, f"canonical decoding [{rule_}] {key}", ok, detail, where)
+    if tier == "thorough":
+        mypy_cross_reference(chk, repo)
     chk.not_decided += ["implicit exceptions of builtins outside the modelled list (bytes +, len, set of bytes, zip)",
                         "type-guard raises inside field classes are assumed dead for well-typed internal callers"]
     chk.assumptions += ["inputs are bytes / sequences of bytes (the isinstance conjunct of the length predicates is checked by R3)",
